@@ -6,7 +6,7 @@ STUBS = ("stubs: DpPathFingerprint::from_dp_path and PathFingerprint::try_from_s
          "are replaced by constants in the path() harnesses; fingerprints are not part of any claimed clause")
 
 PROP = {
-    "level": "model_checking",
+    "level": "proof",
     "clauses": [
         "C04-1 PathSolution::valid_next_seg / try_add_edge: accepted kind sequences are exactly {nc, c, nc.nc, nc.c, c.nc, nc.c.nc}; "
         "inductive step from an arbitrary solution whose kinds are in the rule; edges.len() <= 3 (3-slot ArrayVec push in path() cannot fail)",
